@@ -41,10 +41,18 @@ OSERROR_CODES = {
 WRITE_KINDS = ("write", "tmp-write")
 READ_KINDS = ("read", "tmp-read", "stdin-read")
 MUTATING_KINDS = ("open-w", "remove", "write", "copystat")
+# Steps that change the visible file system when they take effect (data
+# writes are WRITE_KINDS): what "nothing was touched before the fault" means.
+EFFECT_KINDS = ("open-w", "remove", "copystat", "rename", "chmod", "utime",
+                "truncate", "mkdir", "rmdir")
 FAULTABLE_KINDS = (
     "open-r", "open-w", "read", "write", "remove", "copystat",
     "tmp-create", "tmp-write", "tmp-read", "tmp-seek", "stdin-read",
+    "rename", "chmod", "utime", "truncate", "fsync", "mkdir", "rmdir",
+    "close-w",
 )
+FD_BASE = 100000        # simulated descriptors live far above real ones
+TMP_DIR = "/sim/tmp"    # the simulated system temporary directory
 
 
 class SimCrash(BaseException):
@@ -80,7 +88,8 @@ class SimFault:
 class SimRaw(io.RawIOBase):
     """Raw file whose readinto/write/close are the simulator's I/O steps."""
 
-    def __init__(self, world, path, readable, writable, kindpfx=""):
+    def __init__(self, world, path, readable, writable, kindpfx="",
+                 fd=None, append=False):
         super().__init__()
         self.world = world
         self.path = path
@@ -89,6 +98,14 @@ class SimRaw(io.RawIOBase):
         self.pos = 0
         self.kp = kindpfx
         self.name = path
+        self.fd = fd
+        self.append = append
+        self.quiet = False      # a per-call view of a descriptor: no close
+
+    def fileno(self):
+        if self.fd is None:
+            self.fd = self.world.new_fd(self.path, self.kp)
+        return self.fd
 
     def readable(self):
         return self._r
@@ -153,6 +170,8 @@ class SimRaw(io.RawIOBase):
         except KeyError:
             # unlinked while open: writes go nowhere visible
             return
+        if self.append:
+            self.pos = len(buf)
         end = self.pos + len(data)
         if len(buf) < self.pos:
             buf.extend(b"\0" * (self.pos - len(buf)))
@@ -180,14 +199,46 @@ class SimRaw(io.RawIOBase):
     def tell(self):
         return self.pos
 
+    def truncate(self, size=None):
+        size = self.pos if size is None else size
+        world = self.world
+        act = world.step(self.kp + "truncate" if self.kp else "truncate",
+                         self.path, size, faultable=not self.kp)
+        if not (world.frozen or world.dead):
+            try:
+                buf = self._buf()
+                if len(buf) > size:
+                    del buf[size:]
+                else:
+                    buf.extend(b"\0" * (size - len(buf)))
+                if not self.kp:
+                    world.touch(self.path)
+            except KeyError:
+                pass
+        world._after(act)
+        return size
+
     def close(self):
         if not self.closed:
             super().close()
+            if self.quiet:
+                return
             world = self.world
-            if not world.dead:
-                world.step(self.kp + "close", self.path, 0, faultable=False)
+            if self.fd is not None:
+                world.fds.pop(self.fd, None)
             if self.kp:
+                if not world.dead:
+                    world.step(self.kp + "close", self.path, 0,
+                               faultable=False)
                 world.anon.pop(self.path, None)
+            elif not world.dead:
+                # close(2) of a written file can report a deferred write
+                # error (quota, NFS); of a file only read it does not
+                if self._w:
+                    act = world.step("close-w", self.path, 0)
+                    world._after(act)
+                else:
+                    world.step("close", self.path, 0, faultable=False)
 
 
 class SimStdinRaw(io.RawIOBase):
@@ -273,6 +324,54 @@ class _TempfileSeam:
     def TemporaryFile(self, *args, **kwargs):  # noqa: N802 (mirrors tempfile)
         return self._world.temporary_file()
 
+    def NamedTemporaryFile(self, *args, **kwargs):  # noqa: N802
+        return self._world.named_temporary_file(*args, **kwargs)
+
+    def mkstemp(self, *args, **kwargs):
+        return self._world.mkstemp(*args, **kwargs)
+
+    def gettempdir(self):
+        return TMP_DIR
+
+    def __getattr__(self, name):
+        import tempfile as real
+        return getattr(real, name)
+
+
+class _NamedTemp:
+    """tempfile.NamedTemporaryFile over the simulated file system."""
+
+    def __init__(self, world, stream, name, delete):
+        self._world = world
+        self.file = stream
+        self.name = name
+        self.delete = delete
+        self._closed = False
+
+    def __getattr__(self, attr):
+        return getattr(self.file, attr)
+
+    def __iter__(self):
+        return iter(self.file)
+
+    def __enter__(self):
+        return self
+
+    def __exit__(self, *exc):
+        self.close()
+        return False
+
+    def close(self):
+        if self._closed:
+            return
+        self._closed = True
+        try:
+            self.file.close()
+        finally:
+            if self.delete and self.name in self._world.fs \
+                    and not self._world.dead:
+                self._world.remove(self.name)
+
 
 class Result:
     """Everything observable about one finished run."""
@@ -319,6 +418,11 @@ class World:
         self.clock = 2000
         self.anon = {}
         self.anon_n = 0
+        self.fds = {}
+        self.fd_n = 0
+        self.named_tmp_n = 0
+        self.modes = {}
+        self.dirs.add(TMP_DIR)
         self.stdin_bytes = stdin.encode("utf-8") if isinstance(stdin, str) \
             else bytes(stdin)
         self.tty = tty
@@ -416,16 +520,27 @@ class World:
     # ------------------------------------------------------------------
     @staticmethod
     def owns(path):
+        if isinstance(path, os.PathLike):
+            path = os.fspath(path)
+        if isinstance(path, bytes):
+            path = path.decode("utf-8", "surrogateescape")
         return isinstance(path, str) and \
             posixpath.normpath(path).startswith(SIM_ROOT)
 
     @staticmethod
     def norm(path):
         """One file, one name: '/sim/w/./x', '/sim/w//x' are '/sim/w/x'."""
+        if isinstance(path, os.PathLike):
+            path = os.fspath(path)
+        if isinstance(path, bytes):
+            path = path.decode("utf-8", "surrogateescape")
         return posixpath.normpath(path)
 
     def sim_open(self, path, mode="r", buffering=-1, encoding=None,
                  errors=None, newline=None, closefd=True, opener=None):
+        if isinstance(path, int):
+            return self.fd_stream(path, mode, buffering, encoding, errors,
+                                  newline)
         path = self.norm(path)
         binary = "b" in mode
         writing = any(c in mode for c in "wax+")
@@ -433,9 +548,20 @@ class World:
             self.step("open-w" if writing else "open-r", path, 0,
                       faultable=False)
             raise IsADirectoryError(errno.EISDIR, "Is a directory", path)
+        if writing and "w" not in mode or "+" in mode:
+            # append, exclusive-create and update modes: by way of a
+            # descriptor, like CPython's FileIO
+            flags = os.O_RDWR if "+" in mode else os.O_WRONLY
+            if "a" in mode:
+                flags |= os.O_CREAT | os.O_APPEND
+            elif "x" in mode:
+                flags |= os.O_CREAT | os.O_EXCL
+            elif "w" in mode:
+                flags |= os.O_CREAT | os.O_TRUNC
+            fdn = self.os_open(path, flags)
+            return self.fd_stream(fdn, mode, buffering, encoding, errors,
+                                  newline)
         if writing:
-            if "w" not in mode:
-                raise NotImplementedError("sim_open mode " + mode)
             act = self.step("open-w", path, 0)
             parent = posixpath.dirname(path)
             if parent + "/" != SIM_ROOT and parent not in self.dirs \
@@ -492,9 +618,18 @@ class World:
         if path not in self.fs:
             raise FileNotFoundError(errno.ENOENT,
                                     "No such file or directory", path)
+        return self._stat_of(path)
+
+    def _stat_of(self, path):
+        import stat as statmod
         when = self.mtime.get(path, 1000)
-        return os.stat_result((statmod.S_IFREG | 0o644, 0, 0, 1, 0, 0,
-                               len(self.fs[path]), when, when, when))
+        perm = self.modes.get(path, 0o644)
+        extra = {"st_atime": float(when), "st_mtime": float(when),
+                 "st_ctime": float(when), "st_atime_ns": when * 10 ** 9,
+                 "st_mtime_ns": when * 10 ** 9, "st_ctime_ns": when * 10 ** 9,
+                 "st_blksize": 4096, "st_blocks": 0, "st_rdev": 0}
+        return os.stat_result((statmod.S_IFREG | perm, 0, 0, 1, 0, 0,
+                               len(self.fs[path]), when, when, when), extra)
 
     def temporary_file(self):
         self.anon_n += 1
@@ -581,6 +716,346 @@ class World:
         shutil.copyfileobj(fsrc, fdst, self.copy_chunk)
 
     # ------------------------------------------------------------------
+    # the rest of the os / shutil / tempfile surface (nothing in the
+    # unchanged tree uses these; a changed tree may, and must then meet the
+    # same simulated disk instead of falling through to the real one)
+    # ------------------------------------------------------------------
+    def new_fd(self, path, kindpfx="", flags=0):
+        self.fd_n += 1
+        fdn = FD_BASE + self.fd_n
+        self.fds[fdn] = {"path": path, "kp": kindpfx, "flags": flags,
+                         "pos": 0}
+        return fdn
+
+    def _check_parent(self, path):
+        parent = posixpath.dirname(path)
+        if parent + "/" != SIM_ROOT and parent not in self.dirs \
+                and not any(p.startswith(parent + "/") for p in self.fs):
+            raise FileNotFoundError(errno.ENOENT, "No such directory", path)
+
+    def os_open(self, path, flags, mode=0o777, *, dir_fd=None):
+        path = self.norm(path)
+        acc = flags & os.O_ACCMODE
+        writing = acc in (os.O_WRONLY, os.O_RDWR)
+        if path in self.dirs:
+            if writing:
+                raise IsADirectoryError(errno.EISDIR, "Is a directory", path)
+            self.step("open-r", path, 0, faultable=False)
+            return self.new_fd(path, "", flags)
+        changes = bool(flags & os.O_CREAT and path not in self.fs) or \
+            bool(flags & os.O_TRUNC and writing)
+        act = self.step("open-w" if changes else "open-r", path, 0)
+        present = path in self.fs
+        if present and flags & os.O_CREAT and flags & os.O_EXCL:
+            raise FileExistsError(errno.EEXIST, "File exists", path)
+        if not present and not flags & os.O_CREAT:
+            raise FileNotFoundError(errno.ENOENT,
+                                    "No such file or directory", path)
+        self._check_parent(path)
+        if present and path in self.unreadable:
+            raise PermissionError(errno.EACCES, "Permission denied", path)
+        if not (self.frozen or self.dead):
+            if not present:
+                self.fs[path] = bytearray()
+                self.modes[path] = mode & 0o777 & ~0o022
+                self.touch(path)
+            elif flags & os.O_TRUNC and writing:
+                self.fs[path] = bytearray()
+                self.touch(path)
+        self._after(act)
+        return self.new_fd(path, "", flags)
+
+    def fd_stream(self, fdn, mode="r", buffering=-1, encoding=None,
+                  errors=None, newline=None):
+        ent = self.fds.get(fdn)
+        if ent is None:
+            raise OSError(errno.EBADF, "Bad file descriptor")
+        binary = "b" in mode
+        updating = "+" in mode
+        writing = any(c in mode for c in "wax") or updating
+        reading = "r" in mode or updating
+        raw = SimRaw(self, ent["path"], reading, writing, kindpfx=ent["kp"],
+                     fd=fdn,
+                     append=bool(ent["flags"] & os.O_APPEND) or "a" in mode)
+        raw.pos = ent["pos"]
+        size = max(1, self.bin_buf if binary else self.text_buf)
+        if reading and writing:
+            buf = io.BufferedRandom(raw, buffer_size=size)
+        elif writing:
+            buf = io.BufferedWriter(raw, buffer_size=size)
+        else:
+            buf = io.BufferedReader(raw, buffer_size=size)
+        if binary:
+            return buf
+        return io.TextIOWrapper(buf, encoding=encoding or "utf-8",
+                                errors=errors, newline=newline,
+                                write_through=self.write_through)
+
+    def _fd(self, fdn):
+        ent = self.fds.get(fdn)
+        if ent is None:
+            raise OSError(errno.EBADF, "Bad file descriptor")
+        return ent
+
+    def os_close(self, fdn):
+        ent = self._fd(fdn)
+        del self.fds[fdn]
+        if ent["path"] in self.dirs:
+            return
+        writing = (ent["flags"] & os.O_ACCMODE) in (os.O_WRONLY, os.O_RDWR)
+        if writing and not ent["kp"]:
+            self._after(self.step("close-w", ent["path"], 0))
+        else:
+            self.step(ent["kp"] + "close", ent["path"], 0, faultable=False)
+
+    def os_write(self, fdn, data):
+        ent = self._fd(fdn)
+        raw = SimRaw(self, ent["path"], False, True, kindpfx=ent["kp"],
+                     append=bool(ent["flags"] & os.O_APPEND))
+        raw.quiet = True
+        raw.pos = ent["pos"]
+        done = raw.write(data)
+        ent["pos"] = raw.pos
+        return done
+
+    def os_read(self, fdn, count):
+        ent = self._fd(fdn)
+        raw = SimRaw(self, ent["path"], True, False, kindpfx=ent["kp"])
+        raw.quiet = True
+        raw.pos = ent["pos"]
+        buf = bytearray(count)
+        got = raw.readinto(buf)
+        ent["pos"] = raw.pos
+        return bytes(buf[:got])
+
+    def os_lseek(self, fdn, pos, how):
+        ent = self._fd(fdn)
+        size = len(self.anon[ent["path"]] if ent["kp"]
+                   else self.fs.get(ent["path"], b""))
+        ent["pos"] = pos if how == 0 else \
+            ent["pos"] + pos if how == 1 else size + pos
+        return ent["pos"]
+
+    def os_fsync(self, fdn):
+        ent = self._fd(fdn)
+        self._after(self.step("fsync", ent["path"], 0))
+
+    def os_fstat(self, fdn):
+        ent = self._fd(fdn)
+        return self.stat(ent["path"])
+
+    def os_ftruncate(self, fdn, size):
+        ent = self._fd(fdn)
+        self.truncate(ent["path"], size)
+
+    def truncate(self, path, size):
+        if isinstance(path, int):
+            return self.os_ftruncate(path, size)
+        path = self.norm(path)
+        act = self.step("truncate", path, size)
+        if path not in self.fs:
+            raise FileNotFoundError(errno.ENOENT,
+                                    "No such file or directory", path)
+        if not (self.frozen or self.dead):
+            buf = self.fs[path]
+            if len(buf) > size:
+                del buf[size:]
+            else:
+                buf.extend(b"\0" * (size - len(buf)))
+            self.touch(path)
+        self._after(act)
+        return None
+
+    def rename(self, src, dst, **_kwargs):
+        """os.rename / os.replace (POSIX: silently replaces a file)."""
+        src = self.norm(src)
+        dst = self.norm(dst)
+        act = self.step("rename", dst, 0)
+        if src in self.dirs:
+            if dst in self.fs:
+                raise NotADirectoryError(errno.ENOTDIR, "Not a directory",
+                                         dst)
+            if not (self.frozen or self.dead):
+                self.dirs.discard(src)
+                self.dirs.add(dst)
+                for name in [p for p in self.fs
+                             if p.startswith(src + "/")]:
+                    self.fs[dst + name[len(src):]] = self.fs.pop(name)
+            self._after(act)
+            return
+        if src not in self.fs:
+            raise FileNotFoundError(errno.ENOENT,
+                                    "No such file or directory", src)
+        if dst in self.dirs:
+            raise IsADirectoryError(errno.EISDIR, "Is a directory", dst)
+        self._check_parent(dst)
+        if not (self.frozen or self.dead) and src != dst:
+            self.fs[dst] = self.fs.pop(src)
+            self.mtime[dst] = self.mtime.pop(src, 1000)
+            if src in self.modes:
+                self.modes[dst] = self.modes.pop(src)
+            else:
+                self.modes.pop(dst, None)
+            if src in self.unreadable:
+                self.unreadable.discard(src)
+                self.unreadable.add(dst)
+            else:
+                self.unreadable.discard(dst)
+        self._after(act)
+
+    def chmod(self, path, mode, **_kwargs):
+        if isinstance(path, int):
+            path = self._fd(path)["path"]
+        path = self.norm(path)
+        act = self.step("chmod", path, 0)
+        if path not in self.fs and path not in self.dirs:
+            raise FileNotFoundError(errno.ENOENT,
+                                    "No such file or directory", path)
+        if not (self.frozen or self.dead):
+            self.modes[path] = mode & 0o7777
+        self._after(act)
+
+    def utime(self, path, times=None, *, ns=None, **_kwargs):
+        if isinstance(path, int):
+            path = self._fd(path)["path"]
+        path = self.norm(path)
+        act = self.step("utime", path, 0)
+        if path not in self.fs and path not in self.dirs:
+            raise FileNotFoundError(errno.ENOENT,
+                                    "No such file or directory", path)
+        if not (self.frozen or self.dead):
+            if ns is not None:
+                self.mtime[path] = int(ns[1]) // 10 ** 9
+            elif times is not None:
+                self.mtime[path] = int(times[1])
+            else:
+                self.touch(path)
+        self._after(act)
+
+    def isdir(self, path):
+        path = self.norm(path)
+        self.step("stat", path, 0, faultable=False)
+        return path in self.dirs
+
+    def listdir(self, path="."):
+        path = self.norm(path)
+        self.step("stat", path, 0, faultable=False)
+        if path in self.fs:
+            raise NotADirectoryError(errno.ENOTDIR, "Not a directory", path)
+        names = set()
+        for name in list(self.fs) + list(self.dirs):
+            if name.startswith(path + "/"):
+                names.add(name[len(path) + 1:].split("/", 1)[0])
+        if not names and path not in self.dirs and path + "/" != SIM_ROOT \
+                and path != "/sim/w":
+            raise FileNotFoundError(errno.ENOENT,
+                                    "No such file or directory", path)
+        return sorted(names)
+
+    def mkdir(self, path, mode=0o777, **_kwargs):
+        path = self.norm(path)
+        act = self.step("mkdir", path, 0)
+        if path in self.fs or path in self.dirs:
+            raise FileExistsError(errno.EEXIST, "File exists", path)
+        self._check_parent(path)
+        if not (self.frozen or self.dead):
+            self.dirs.add(path)
+        self._after(act)
+
+    def makedirs(self, path, mode=0o777, exist_ok=False):
+        path = self.norm(path)
+        if path in self.dirs or path in ("/sim", "/sim/w"):
+            if exist_ok:
+                return
+            raise FileExistsError(errno.EEXIST, "File exists", path)
+        parent = posixpath.dirname(path)
+        if parent not in self.dirs and parent not in ("/sim", "/sim/w") \
+                and not any(p.startswith(parent + "/") for p in self.fs):
+            self.makedirs(parent, mode, True)
+        self.mkdir(path, mode)
+
+    def rmdir(self, path, **_kwargs):
+        path = self.norm(path)
+        act = self.step("rmdir", path, 0)
+        if path not in self.dirs:
+            raise FileNotFoundError(errno.ENOENT,
+                                    "No such file or directory", path)
+        if any(p.startswith(path + "/") for p in self.fs):
+            raise OSError(errno.ENOTEMPTY, "Directory not empty", path)
+        if not (self.frozen or self.dead):
+            self.dirs.discard(path)
+        self._after(act)
+
+    def copyfile(self, src, dst, **_kwargs):
+        src = self.norm(src)
+        dst = self.norm(dst)
+        if src == dst:
+            raise shutil.SameFileError(
+                "{!r} and {!r} are the same file".format(src, dst))
+        with self.sim_open(src, "rb") as fsrc:
+            with self.sim_open(dst, "wb") as fdst:
+                while True:
+                    chunk = fsrc.read(self.copy_chunk)
+                    if not chunk:
+                        break
+                    fdst.write(chunk)
+                    fdst.flush()
+        return dst
+
+    def copymode(self, src, dst, **_kwargs):
+        src = self.norm(src)
+        self.chmod(dst, self.modes.get(src, 0o644))
+
+    def copystat(self, src, dst, **_kwargs):
+        src = self.norm(src)
+        dst = self.norm(dst)
+        act = self.step("copystat", dst, 0)
+        if src not in self.fs or dst not in self.fs:
+            raise FileNotFoundError(errno.ENOENT,
+                                    "No such file or directory", dst)
+        if not (self.frozen or self.dead):
+            self.mtime[dst] = self.mtime.get(src, 1000)
+            if src in self.modes:
+                self.modes[dst] = self.modes[src]
+            else:
+                self.modes.pop(dst, None)
+        self._after(act)
+
+    def copy(self, src, dst, **_kwargs):
+        dst = self.norm(dst)
+        if dst in self.dirs:
+            dst = dst + "/" + posixpath.basename(self.norm(src))
+        self.copyfile(src, dst)
+        self.copymode(src, dst)
+        return dst
+
+    def move(self, src, dst, **_kwargs):
+        dst = self.norm(dst)
+        if dst in self.dirs:
+            dst = dst + "/" + posixpath.basename(self.norm(src))
+        self.rename(src, dst)
+        return dst
+
+    def mkstemp(self, suffix=None, prefix=None, dir=None, text=False):
+        # pylint: disable=redefined-builtin
+        where = self.norm(dir) if dir is not None else TMP_DIR
+        self.named_tmp_n += 1
+        name = "%s/%s%s%s" % (where, prefix if prefix is not None else "tmp",
+                              "sim%04d" % self.named_tmp_n, suffix or "")
+        fdn = self.os_open(name, os.O_RDWR | os.O_CREAT | os.O_EXCL, 0o600)
+        return fdn, name
+
+    def named_temporary_file(self, mode="w+b", buffering=-1, encoding=None,
+                             newline=None, suffix=None, prefix=None,
+                             dir=None, delete=True, *, errors=None,
+                             delete_on_close=True):
+        # pylint: disable=redefined-builtin
+        fdn, name = self.mkstemp(suffix, prefix, dir)
+        stream = self.fd_stream(fdn, mode, buffering, encoding, errors,
+                                newline)
+        return _NamedTemp(self, stream, name, delete)
+
+    # ------------------------------------------------------------------
     # snapshots
     # ------------------------------------------------------------------
     def snapshot(self):
@@ -635,8 +1110,12 @@ def _patched(world, tool_mod, argv0, argv):
         setattr(obj, name, value)
 
     def routed_open(file, mode="r", *args, **kwargs):
-        if World.owns(file) and not world.dead:
-            return world.sim_open(file, mode, *args, **kwargs)
+        if not world.dead:
+            if isinstance(file, int) and not isinstance(file, bool):
+                if file in world.fds:
+                    return world.sim_open(file, mode, *args, **kwargs)
+            elif World.owns(file):
+                return world.sim_open(file, mode, *args, **kwargs)
         return _REAL_OPEN(file, mode, *args, **kwargs)
 
     stdin = io.TextIOWrapper(
@@ -647,9 +1126,118 @@ def _patched(world, tool_mod, argv0, argv):
         encoding="utf-8")
     stdout = _Capture()
     stderr = _Capture()
+    def by_path(sim_fn, real_fn, npaths=1):
+        """Route a call to the world when (one of) its path(s) is simulated."""
+        def routed(*args, **kwargs):
+            if not world.dead:
+                for arg in args[:npaths]:
+                    if isinstance(arg, int) and not isinstance(arg, bool):
+                        if arg in world.fds:
+                            return sim_fn(*args, **kwargs)
+                    elif World.owns(arg):
+                        return sim_fn(*args, **kwargs)
+            return real_fn(*args, **kwargs)
+        routed.__name__ = getattr(real_fn, "__name__", "routed")
+        return routed
+
+    def routed_tmp(sim_fn, real_fn):
+        def routed(*args, **kwargs):
+            if world.dead:
+                return real_fn(*args, **kwargs)
+            return sim_fn(*args, **kwargs)
+        return routed
+
+    def gap(name, real_fn, npaths=1):
+        def routed(*args, **kwargs):
+            if not world.dead:
+                for arg in list(args[:npaths]) + [kwargs.get("path"),
+                                                  kwargs.get("src"),
+                                                  kwargs.get("dst")]:
+                    if arg is not None and not isinstance(arg, int) \
+                            and World.owns(arg):
+                        world.flags.add("seam-gap:" + name)
+                        raise NotImplementedError(
+                            "simulator: %s is not modelled" % name)
+            return real_fn(*args, **kwargs)
+        return routed
+
+    import tempfile as real_tempfile
+    unmodelled = [
+        (os, "link", 2), (os, "symlink", 2), (os, "readlink", 1),
+        (os, "scandir", 1), (os, "chown", 1), (os, "lchown", 1),
+        (os, "mkfifo", 1), (os, "mknod", 1), (os, "chdir", 1),
+        (os, "statvfs", 1), (os, "getxattr", 1), (os, "setxattr", 1),
+        (os, "listxattr", 1), (os, "removexattr", 1), (os, "chflags", 1),
+        (os, "pathconf", 1), (os, "walk", 1),
+        (shutil, "rmtree", 1), (shutil, "copytree", 2),
+        (shutil, "disk_usage", 1), (shutil, "chown", 1),
+    ]
+    surface = [
+        (os, "lstat", world.stat, 1), (os, "chmod", world.chmod, 1),
+        (os, "utime", world.utime, 1), (os, "rename", world.rename, 2),
+        (os, "replace", world.rename, 2), (os, "remove", world.remove, 1),
+        (os, "unlink", world.remove, 1), (os, "open", world.os_open, 1),
+        (os, "close", world.os_close, 1), (os, "write", world.os_write, 1),
+        (os, "read", world.os_read, 1), (os, "lseek", world.os_lseek, 1),
+        (os, "fsync", world.os_fsync, 1), (os, "fdatasync", world.os_fsync, 1),
+        (os, "fstat", world.os_fstat, 1),
+        (os, "ftruncate", world.os_ftruncate, 1),
+        (os, "truncate", world.truncate, 1), (os, "listdir", world.listdir, 1),
+        (os, "mkdir", world.mkdir, 1), (os, "makedirs", world.makedirs, 1),
+        (os, "rmdir", world.rmdir, 1), (os, "access", world.access, 1),
+        (posixpath, "exists", world.exists, 1),
+        (posixpath, "lexists", world.exists, 1),
+        (posixpath, "isfile", world.isfile, 1),
+        (posixpath, "isdir", world.isdir, 1),
+        (shutil, "copy2", world.copy2, 2), (shutil, "copy", world.copy, 2),
+        (shutil, "copyfile", world.copyfile, 2),
+        (shutil, "copymode", world.copymode, 2),
+        (shutil, "copystat", world.copystat, 2),
+        (shutil, "move", world.move, 2),
+    ]
     try:
         setattr_(builtins, "open", routed_open)
+        setattr_(io, "open", routed_open)
         setattr_(os, "stat", world.stat)
+        # The whole os / shutil / tempfile file surface meets the simulated
+        # disk: on the modules themselves (late-bound uses such as
+        # ``os.replace(...)`` and pathlib) ...
+        rebound = {id(_REAL_OPEN): routed_open, id(_REAL_STAT): world.stat,
+                   id(shutil.copyfileobj): world.copyfileobj}
+        for holder, name, sim_fn, npaths in surface:
+            real_fn = getattr(holder, name, None)
+            if real_fn is None:
+                continue
+            routed = by_path(sim_fn, real_fn, npaths)
+            rebound[id(real_fn)] = routed
+            setattr_(holder, name, routed)
+        for holder, name, npaths in unmodelled:
+            real_fn = getattr(holder, name, None)
+            if real_fn is None:
+                continue
+            routed = gap(holder.__name__ + "." + name, real_fn, npaths)
+            rebound[id(real_fn)] = routed
+            setattr_(holder, name, routed)
+        for name, sim_fn in (
+                ("NamedTemporaryFile", world.named_temporary_file),
+                ("mkstemp", world.mkstemp),
+                ("TemporaryFile", lambda *a, **k: world.temporary_file())):
+            real_fn = getattr(real_tempfile, name)
+            routed = routed_tmp(sim_fn, real_fn)
+            rebound[id(real_fn)] = routed
+            setattr_(real_tempfile, name, routed)
+        # ... and wherever the code under test bound one of them by name at
+        # import time (``from os import remove, stat``)
+        for modname in sorted(sys.modules):
+            if modname != "yamlpath" and not modname.startswith("yamlpath."):
+                continue
+            mod = sys.modules[modname]
+            if mod is None:
+                continue
+            for name, value in list(vars(mod).items()):
+                repl = rebound.get(id(value))
+                if repl is not None and callable(value):
+                    setattr_(mod, name, repl)
         for mod in set([tool_mod] + [sys.modules[m] for m in TOOLS.values()
                                      if m in sys.modules]):
             for name, repl in (("remove", world.remove),
